@@ -7,6 +7,6 @@ Nop == /\ UNCHANGED <<envVars, obsvVars, strVars, synVars, thrVars, marks, emitv
 SimNext == Next \/ Nop
 SimSpec == Init /\ [][SimNext]_vars
 CfgJson == [NVB |-> NVB, InitLog |-> InitLog, FoUuid |-> FoUuid, AutoReset |-> AutoReset, Finite |-> Finite,
-            AutoCkpt |-> AutoCkpt, Info0 |-> Info0, Slots |-> Slots, ReadOnly |-> ReadOnly, HookScrapes |-> HookScrapes]
+            AutoCkpt |-> AutoCkpt, Info0 |-> Info0, Slots |-> Slots, ReadOnly |-> ReadOnly, HookScrapes |-> HookScrapes, HoldCb |-> HoldCb]
 DumpSched == (Len(hist) = D /\ ~LockHandoff /\ ~GateReady /\ ~ROReady) => PrintT(<<"SCHED", ToJson([cfg |-> CfgJson, steps |-> hist])>>)
 =============================================================================
